@@ -212,7 +212,8 @@ impl<T> Receiver<T> {
     }
 
     fn recv_max_until(&self, timeout: Duration) -> Result<T, RecvTimeoutError> {
-        let deadline = Instant::now() + timeout;
+        // `None` means the deadline is not representable (e.g. `Duration::MAX`)
+        let deadline = Instant::now().checked_add(timeout);
         loop {
             match self.inner.recv(Some(timeout)) {
                 Ok(t) => return Ok(t),
@@ -222,8 +223,9 @@ impl<T> Receiver<T> {
 
             // If we're already passed the deadline, and we're here without
             // data, return a timeout, else try again.
-            if Instant::now() >= deadline {
-                return Err(RecvTimeoutError::Timeout);
+            match deadline {
+                Some(d) if Instant::now() >= d => return Err(RecvTimeoutError::Timeout),
+                _ => {}
             }
         }
     }
